@@ -419,10 +419,14 @@ fn gen_mutation(r: &mut Rng) -> String {
             ("mut-range", Some(0))
         }
         10 if leaf == "signature" => {
-            let v = match r.below(4) {
+            let v = match r.below(6) {
                 0 => "x".to_string(),
                 1 => "y".repeat(104),
                 2 => "\u{00e9}\u{4e16}\"\\\n".to_string(),
+                // multi-byte characters at every alignment (a handler that cuts the text at a byte offset must not split one):
+                // 0-3 ASCII characters, then two- or three-byte characters, short enough for the smallest body cap
+                3 => format!("{}{}", "a".repeat(r.below(4) as usize), "\u{00e9}".repeat(3 + r.below(20) as usize)),
+                4 => format!("{}{}", "a".repeat(r.below(4) as usize), "\u{20ac}".repeat(2 + r.below(12) as usize)),
                 _ => "d7xq9yfh3wzce5k8".repeat(1 + r.below(3) as usize),
             };
             *j.get_mut(path) = J::Str(v);
